@@ -1,6 +1,7 @@
 package dhcp
 
 import (
+	"bytes"
 	"context"
 	"crypto/rand"
 	"encoding/hex"
@@ -723,6 +724,25 @@ func (s *Server) handleRequest(req *dhcpv4.DHCPv4) (*dhcpv4.DHCPv4, error) {
 	s.leasesMu.Unlock()
 	if movedFrom != nil && s.loader != nil {
 		s.loader.RemoveSubscriber(ebpf.MACToUint64(movedFrom))
+	}
+
+	// The client renewed through another circuit (a CPE moved to another
+	// port): the old circuit's entries must not keep naming the replaced lease,
+	// or the next subscriber on that port is handed this client's address
+	if existingLease != nil && len(existingLease.CircuitID) > 0 &&
+		!bytes.Equal(existingLease.CircuitID, lease.CircuitID) {
+		oldKey := hex.EncodeToString(existingLease.CircuitID)
+		s.leasesByCircuitIDMu.Lock()
+		if s.leasesByCircuitID[oldKey] == existingLease {
+			delete(s.leasesByCircuitID, oldKey)
+		}
+		s.leasesByCircuitIDMu.Unlock()
+		if s.loader != nil {
+			s.loader.RemoveCircuitIDMapping(existingLease.CircuitID)
+			if s.loader.HasCircuitIDSubscriberSupport() {
+				s.loader.RemoveCircuitIDSubscriber(existingLease.CircuitID)
+			}
+		}
 	}
 
 	// Maintain circuit-ID secondary index for relay-aware lookup
